@@ -298,3 +298,59 @@ pub fn drive_binary_start(
     start.setup(&mut net.metadata(BatchMode::fixed(1024)));
     drive2(start, net, sl, sr, deliveries)
 }
+
+/// Build a two-input block with the public API from two (never executed) script sources,
+/// take the real chain `Start::multiple -> ...` of the resulting block and drive it.
+/// `build` returns the resulting stream and the ids of the two blocks feeding it.
+pub fn drive_binary_chain<L, R, Op, F>(
+    nl: u64,
+    nr: u64,
+    deliveries: Vec<Del<L, R>>,
+    build: F,
+) -> Result<Vec<E<Op::Out>>, String>
+where
+    L: ExchangeData,
+    R: ExchangeData,
+    Op: Operator + 'static,
+    Op::Out: Send + 'static,
+    F: FnOnce(
+        renoir::Stream<crate::script::Script<L>>,
+        renoir::Stream<crate::script::Script<R>>,
+    ) -> (renoir::Stream<Op>, u64, u64),
+{
+    let env = renoir::StreamContext::new(renoir::RuntimeConfig::local(1).unwrap());
+    let a = env.stream(crate::script::Script::<L>::new(vec![]));
+    let b = env.stream(crate::script::Script::<R>::new(vec![]));
+    let (stream, idl, idr) = build(a, b);
+    let dest = verif::block_id(&stream);
+    let mut chain = verif::into_chain(stream);
+    let mut net = Net::new(dest);
+    let sl = net.add_prev::<L>(idl, nl);
+    let sr = net.add_prev::<R>(idr, nr);
+    chain.setup(&mut net.metadata(BatchMode::fixed(1024)));
+    drive2(chain, net, sl, sr, deliveries)
+}
+
+/// The real keyed interval-join block `Start::multiple -> merge -> Reorder -> IntervalJoin`,
+/// fed with the (key, MergeElement) pairs its producers would send.
+pub fn drive_interval(
+    nl: u64,
+    nr: u64,
+    deliveries: Vec<Del<(i64, renoir::operator::VerifMergeElement<i64, i64>), (i64, renoir::operator::VerifMergeElement<i64, i64>)>>,
+    lb: i64,
+    ub: i64,
+) -> Result<Vec<E<(i64, (i64, i64))>>, String> {
+    type KV = (i64, i64);
+    let env = renoir::StreamContext::new(renoir::RuntimeConfig::local(1).unwrap());
+    let a = env.stream(crate::script::Script::<KV>::new(vec![]));
+    let b = env.stream(crate::script::Script::<KV>::new(vec![]));
+    let (idl, idr) = (verif::block_id(&a), verif::block_id(&b));
+    let stream = a.to_keyed().interval_join(b.to_keyed(), lb, ub).0;
+    let dest = verif::block_id(&stream);
+    let mut chain = verif::into_chain(stream);
+    let mut net = Net::new(dest);
+    let sl = net.add_prev(idl, nl);
+    let sr = net.add_prev(idr, nr);
+    chain.setup(&mut net.metadata(BatchMode::fixed(1024)));
+    drive2(chain, net, sl, sr, deliveries)
+}
